@@ -60,11 +60,11 @@ pub open spec fn tmp_ok(w: World, factory: Seq<char>, infos: [AssetInfo; 2], t: 
         /*[C16 create.distinct-assets]*/ r is Ok ==> !asset_infos[0].same(&asset_infos[1]),
         /*[C16 create.rate-at-most-one]*/ r is Ok ==> (commission_rate is Some ==> commission_rate->Some_0.0.v() <= dd()),
         /*[C16 create.not-registered-yet]*/ r is Ok ==> final(deps.storage).tmp is Some && !old(deps.storage).pairs@.dom().contains(final(deps.storage).tmp->Some_0.pair_key@),
-        /*[C16,C17 create.tmp-record]*/ r is Ok ==> final(deps.storage).tmp is Some && tmp_ok(deps.querier.world(), env.contract.address.0@, asset_infos, final(deps.storage).tmp->Some_0),
+        /*[C16,C17,C10 create.tmp-record]*/ r is Ok ==> final(deps.storage).tmp is Some && tmp_ok(deps.querier.world(), env.contract.address.0@, asset_infos, final(deps.storage).tmp->Some_0),
         /*[C14,C16 create.frame]*/ final(deps.storage).config == old(deps.storage).config && final(deps.storage).pairs@ == old(deps.storage).pairs@ && final(deps.storage).allow@ == old(deps.storage).allow@,
         /*[C07,C16 create.only-instantiate]*/ r is Ok ==> r->Ok_0.messages@.len() == 1 && r->Ok_0.messages@[0].reply_on == ReplyOn::Success
             && (r->Ok_0.messages@[0].msg matches CosmosMsg::Wasm(WasmMsg::Instantiate { admin, code_id, msg, funds, label }) && code_id == old(deps.storage).config->Some_0.pair_code_id && funds@.len() == 0),
-        /*[C16,C17 create.pair-told-recorded-values]*/ r is Ok ==> (r->Ok_0.messages@[0].msg matches CosmosMsg::Wasm(WasmMsg::Instantiate { admin, code_id, msg, funds, label }) &&
+        /*[C16,C17,C05,C10 create.pair-told-recorded-values]*/ r is Ok ==> (r->Ok_0.messages@[0].msg matches CosmosMsg::Wasm(WasmMsg::Instantiate { admin, code_id, msg, funds, label }) &&
             msg == bin_of(PairInstantiateMsg { asset_infos, token_code_id: old(deps.storage).config->Some_0.token_code_id, asset_decimals: final(deps.storage).tmp->Some_0.asset_decimals, requirements,
                 commission_rate: rate_or_default(commission_rate),
                 lp_token_info: LPTokenInfo { lp_token_name: lp_token_info.lp_token_name, lp_token_symbol: lp_token_info.lp_token_symbol, lp_token_decimals: lp_token_info.lp_token_decimals } })),
@@ -235,11 +235,11 @@ pub proof fn lemma_registry_wf_after_update(p: Map<Seq<u8>, PairInfoRaw>, q: Map
         /*[C14 fexec.ownership-follows]*/ msg matches ExecuteMsg::UpdateConfig { owner, token_code_id, pair_code_id } ==> r is Ok ==> final(deps.storage).config is Some
             && final(deps.storage).config->Some_0.owner.0@ == (if owner is Some { canon_of(owner->Some_0@) } else { old(deps.storage).config->Some_0.owner.0@ }),
         // the dispatcher hands every arm its own arguments: the registry guarantees of the handlers are restated at the entry point
-        /*[C16 fexec.create.checks]*/ msg matches ExecuteMsg::CreatePair { asset_infos, requirements, commission_rate, lp_token_info } ==> r is Ok ==>
+        /*[C16,C10 fexec.create.checks]*/ msg matches ExecuteMsg::CreatePair { asset_infos, requirements, commission_rate, lp_token_info } ==> r is Ok ==>
             !asset_infos[0].same(&asset_infos[1]) && (commission_rate is Some ==> commission_rate->Some_0.0.v() <= dd())
             && final(deps.storage).tmp is Some && !old(deps.storage).pairs@.dom().contains(final(deps.storage).tmp->Some_0.pair_key@)
             && tmp_ok(deps.querier.world(), env.contract.address.0@, asset_infos, final(deps.storage).tmp->Some_0),
-        /*[C16,C17 fexec.create.pair-told-recorded-values]*/ msg matches ExecuteMsg::CreatePair { asset_infos, requirements, commission_rate, lp_token_info } ==> r is Ok ==>
+        /*[C16,C17,C05,C10 fexec.create.pair-told-recorded-values]*/ msg matches ExecuteMsg::CreatePair { asset_infos, requirements, commission_rate, lp_token_info } ==> r is Ok ==>
             r->Ok_0.messages@.len() == 1 && (r->Ok_0.messages@[0].msg matches CosmosMsg::Wasm(WasmMsg::Instantiate { admin, code_id, msg, funds, label }) && funds@.len() == 0 &&
             msg == bin_of(PairInstantiateMsg { asset_infos, token_code_id: old(deps.storage).config->Some_0.token_code_id, asset_decimals: final(deps.storage).tmp->Some_0.asset_decimals, requirements,
                 commission_rate: rate_or_default(commission_rate),
